@@ -18,6 +18,11 @@ Lemma c05_src_make : c05_make_args =
   [[bos "chan *preconfpb.PreConfirmation"; bos "len(providers)"]; [bos "[]byte"; bos "len(providerAddress)"]].
 Proof. reflexivity. Qed.
 
+(* the transport: Service.NewStream hands the caller's context to host.NewStream; stream.WriteMsg
+   and stream.ReadMsg select on ctx.Done() (pkg/p2p/libp2p/libp2p.go, stream.go) *)
+Lemma c05_src_transport : (c05_newstream_ctx, c05_write_ctx, c05_read_ctx) = (true, true, true).
+Proof. reflexivity. Qed.
+
 (* --- decidable equalities ------------------------------------------------------------------ *)
 Lemma bid_eqb_eq a b : bid_eqb a b = true <-> a = b.
 Proof.
@@ -496,36 +501,438 @@ Proof.
   rewrite flat_map_map. reflexivity.
 Qed.
 
-(* the checker is silent on everything the model can do (given a signer that ignores the
-   ProviderAddress field and a topology without duplicate addresses -- it is a map) *)
-Theorem checker_sound o a view D r :
+
+(* ============================================================================================ *)
+(* The operational model ([send_bid_op]): context checks per operation.                          *)
+(* ============================================================================================ *)
+Lemma repo_transport_is_ctx : repo_transport = ctx_transport.
+Proof. reflexivity. Qed.
+
+Lemma leb0 D : (D <=? 0) = (D =? 0).
+Proof. destruct D; reflexivity. Qed.
+
+(* case analysis over the script, the transport flags and the position of the deadline *)
+Ltac op_split tr D p :=
+  destruct tr as [hn hw hr ps]; unfold provider_op, wait;
+  cbn [ctx_newstream ctx_write ctx_read pick_send];
+  rewrite ?N.ltb_antisym, <- ?leb0;
+  destruct (p_reply p) eqn:R; destruct hn, hw, hr;
+  destruct (D <=? 0) eqn:E0; destruct (D <=? p_time p) eqn:E1;
+  cbn [andb orb negb]; rewrite ?N.ltb_antisym, ?E0, ?E1; cbn [andb orb negb].
+Ltac op_rest :=
+  repeat match goal with
+         | |- context [match ?v ?c with Ok _ => _ | Err _ => _ | Panic => _ end] => destruct (v c) eqn:?V
+         | |- context [if ?b then _ else _] => destruct b eqn:?
+         end; cbn.
+
+Lemma provider_op_addr cmp tr vf sent D p : x_addr (provider_op cmp tr vf sent D p) = p_addr p.
+Proof. op_split tr D p; op_rest; reflexivity. Qed.
+
+(* the stream is opened: the script does not make NewStream fail, and NewStream does not see an
+   already expired context *)
+Definition opens_stream_op (tr : transport) (D : N) (p : peer) : bool :=
+  match p_reply p with
+  | RNewStreamErr => false
+  | _ => negb (ctx_newstream tr && (D =? 0))
+  end.
+
+Lemma provider_op_written cmp tr vf sent D p :
+  x_written (provider_op cmp tr vf sent D p) = if opens_stream_op tr D p then [sent] else [].
+Proof. unfold opens_stream_op. op_split tr D p; op_rest; reflexivity. Qed.
+
+(* when a goroutine is finished, as a function of script, transport and deadline *)
+Definition blocked (watches_ctx : bool) (D : N) (ev : option N) : time :=
+  match wait watches_ctx D ev with Scripted t | CtxErr t => At t | Blocks => Never end.
+
+Definition finish_op (tr : transport) (D : N) (p : peer) : time :=
+  match p_reply p with
+  | RNewStreamErr => blocked (ctx_newstream tr) D (Some (p_time p))
+  | RWriteErr => if ctx_newstream tr && (D =? 0) then At 0 else blocked (ctx_write tr) D (Some (p_time p))
+  | r => if (ctx_newstream tr || ctx_write tr) && (D =? 0) then At 0
+         else blocked (ctx_read tr) D (match r with RSilence => None | _ => Some (p_time p) end)
+  end.
+
+Lemma eqb0_eq D : (D =? 0) = true -> D = 0.
+Proof. apply N.eqb_eq. Qed.
+
+Lemma provider_op_finish cmp tr vf sent D p :
+  x_finish (provider_op cmp tr vf sent D p) = finish_op tr D p.
+Proof.
+  unfold finish_op, blocked. op_split tr D p; op_rest; try reflexivity;
+    try (apply N.leb_le in E0; assert (D = 0) by lia; subst; reflexivity).
+Qed.
+
+(* on a transport whose three operations watch the context, every goroutine is finished by the
+   deadline -- at its scripted event if that lies before D, else at D *)
+Lemma finish_op_ctx tr D p :
+  ctx_newstream tr = true -> ctx_write tr = true -> ctx_read tr = true ->
+  finish_op tr D p = At (finish_time D p).
+Proof.
+  destruct tr as [hn hw hr ps]. cbn. intros -> -> ->.
+  unfold finish_op, blocked, wait, finish_time, arrives. cbn [ctx_newstream ctx_write ctx_read andb orb].
+  rewrite ?N.ltb_antisym, <- ?leb0.
+  destruct (p_reply p); destruct (D <=? 0) eqn:E0; destruct (D <=? p_time p) eqn:E1; cbn; try reflexivity;
+    apply N.leb_le in E0; assert (D = 0) by lia; subst; try reflexivity;
+    apply N.leb_gt in E1; lia.
+Qed.
+
+(* the only way a goroutine hands a value over *)
+Lemma provider_op_deliver cmp tr vf sent D p c :
+  x_out (provider_op cmp tr vf sent D p) = GDeliver c ->
+  exists c0 rest a, p_reply p = RFrames c0 rest /\ vf c0 = Ok a /\ c = set_prov c0 a /\
+                    (cmp = true -> c_bid c0 = Some sent) /\
+                    x_finish (provider_op cmp tr vf sent D p) = At (p_time p) /\
+                    (p_time p < D \/ (ctx_read tr = false /\ pick_send tr = true)).
+Proof.
+  op_split tr D p; try discriminate;
+    (destruct (vf c0) as [a| |] eqn:V; try discriminate);
+    (destruct cmp; cbn [andb];
+     [destruct (obid_eqb (c_bid c0) (Some sent)) eqn:B; cbn [negb]; try discriminate|]);
+    try (destruct ps; cbn; try discriminate);
+    intros H; inversion H; subst;
+    match goal with R : p_reply p = RFrames ?f ?r |- _ => exists f, r, a end;
+    (repeat split; auto; try discriminate; try (intros _; apply obid_eqb_eq; exact B);
+     try (left; apply N.leb_gt; exact E1); try (right; split; reflexivity)).
+Qed.
+
+Lemma send_bid_op_run cmp tr o a view D r :
+  send_bid_op_gen cmp tr o a view D = XRun r ->
+  exists sent, construct o a = Ok sent /\
+    let provs := get_peers TProvider view in
+    let gs := map (provider_op cmp tr (verify o) sent D) provs in
+    provs <> [] /\ existsb x_crashed gs = false /\
+    r = mkXRun sent (map (fun g => (x_addr g, x_written g)) gs) (flat_map x_delivery gs)
+               (tmax_list (map x_finish gs)).
+Proof.
+  unfold send_bid_op_gen. destruct (construct o a) as [sent| |]; try discriminate.
+  destruct (get_peers TProvider view) as [|p ps] eqn:P; [discriminate|].
+  destruct (existsb x_crashed _) eqn:C; [discriminate|].
+  intros H; inversion H; subst. exists sent. cbn zeta. repeat split; auto. congruence.
+Qed.
+
+(* the contribution of provider p to the result channel *)
+Definition contribution_op (tr : transport) (o : oracles) (sent : bid) (D : N) (p : peer) : list (N * commitment) :=
+  x_delivery (provider_op true tr (verify o) sent D p).
+
+Lemma contribution_op_length tr o sent D p : (length (contribution_op tr o sent D p) <= 1)%nat.
+Proof. unfold contribution_op, x_delivery. destruct (x_out _); cbn; try lia. destruct (x_finish _); cbn; lia. Qed.
+
+Lemma contribution_op_in tr o sent D p t c :
+  In (t, c) (contribution_op tr o sent D p) ->
+  exists c0 rest a, p_reply p = RFrames c0 rest /\ verify o c0 = Ok a /\ c = set_prov c0 a /\
+                    c_bid c0 = Some sent /\ t = p_time p /\
+                    (p_time p < D \/ (ctx_read tr = false /\ pick_send tr = true)).
+Proof.
+  unfold contribution_op, x_delivery.
+  destruct (x_out (provider_op true tr (verify o) sent D p)) as [d| |] eqn:G; try (intros []).
+  apply provider_op_deliver in G. destruct G as (f & rest & a & R & V & E & B & F & T).
+  rewrite F. intros [H|[]]. inversion H; subst. exists f, rest, a. repeat split; auto.
+Qed.
+
+(* completeness, for an answer STRICTLY before the deadline: at the deadline itself the read
+   loses against the context on a transport that watches it, and where it does not, the final
+   select may drop the value ([pick_send]) *)
+Lemma contribution_op_valid tr o sent D p c0 rest a :
+  p_reply p = RFrames c0 rest -> p_time p < D -> verify o c0 = Ok a -> c_bid c0 = Some sent ->
+  contribution_op tr o sent D p = [(p_time p, set_prov c0 a)].
+Proof.
+  intros R0 T V B. unfold contribution_op, x_delivery.
+  assert (X0 : (D <=? 0) = false) by (apply N.leb_gt; lia).
+  assert (X1 : (D <=? p_time p) = false) by (apply N.leb_gt; lia).
+  op_split tr D p; try discriminate; inversion R0; subst; rewrite V, B;
+    replace (obid_eqb (Some sent) (Some sent)) with true by (symmetry; apply obid_eqb_eq; reflexivity);
+    cbn; reflexivity.
+Qed.
+
+Lemma contribution_op_nothing tr o sent D p :
+  (ctx_read tr = true \/ pick_send tr = false) ->
+  ~ answers_validly o sent D p -> contribution_op tr o sent D p = [].
+Proof.
+  intros Hc H. destruct (contribution_op tr o sent D p) as [|[t c] l] eqn:E; [reflexivity|].
+  exfalso. apply H. assert (I : In (t, c) (contribution_op tr o sent D p)) by (rewrite E; left; reflexivity).
+  apply contribution_op_in in I. destruct I as (c0 & rest & a & R & V & _ & B & _ & [T|[T1 T2]]).
+  - exists c0, rest, a. auto.
+  - destruct Hc; congruence.
+Qed.
+
+(* safety holds on every transport and for every resolution of the final select *)
+Theorem op_surface tr o a view D r :
+  send_bid_op tr o a view D = XRun r ->
+  construct o a = Ok (xr_sent r) /\
+  (forall t c, In (t, c) (xr_delivered r) ->
+     exists p c0 rest addr,
+       In p view /\ p_type p = TProvider /\ p_reply p = RFrames c0 rest /\ t = p_time p /\
+       (ctx_read tr = true -> t < D) /\
+       verify o c0 = Ok addr /\ c = set_prov c0 addr /\ c_prov c = addr /\ c_bid c = Some (xr_sent r)) /\
+  (exists contrib : peer -> list (N * commitment),
+     xr_delivered r = flat_map contrib (get_peers TProvider view) /\
+     forall p, (length (contrib p) <= 1)%nat /\
+               ((ctx_read tr = true \/ pick_send tr = false) ->
+                ~ answers_validly o (xr_sent r) D p -> contrib p = []) /\
+               (forall c0 rest addr, p_reply p = RFrames c0 rest -> p_time p < D ->
+                  verify o c0 = Ok addr -> c_bid c0 = Some (xr_sent r) ->
+                  contrib p = [(p_time p, set_prov c0 addr)])).
+Proof.
+  intros H. apply send_bid_op_run in H. destruct H as (sent & Cs & _ & _ & ->). cbn [xr_sent xr_delivered].
+  split; [exact Cs|]. split.
+  - intros t c HIn. rewrite flat_map_map in HIn. apply in_flat_map in HIn.
+    destruct HIn as (p & Hp & Hd). apply get_peers_spec in Hp. destruct Hp as [Hv Ht].
+    apply (contribution_op_in tr o sent D p t c) in Hd.
+    destruct Hd as (c0 & rest & addr & R & V & -> & B & -> & T).
+    exists p, c0, rest, addr. repeat split; auto.
+    intros Hr. destruct T as [T|[T _]]; [exact T|congruence].
+  - exists (contribution_op tr o sent D). split; [rewrite flat_map_map; reflexivity|].
+    intros p. split; [apply contribution_op_length|]. split; [apply contribution_op_nothing|].
+    intros c0 rest addr. apply contribution_op_valid.
+Qed.
+
+Theorem op_surface_verified tr o a view D r :
+  (forall c x, verify o (set_prov c x) = verify o c) ->
+  send_bid_op tr o a view D = XRun r ->
+  forall t c, In (t, c) (xr_delivered r) ->
+    verify o c = Ok (c_prov c) /\ c_bid c = Some (xr_sent r) /\ (ctx_read tr = true -> t < D).
+Proof.
+  intros Hv H t c HIn. destruct (op_surface _ _ _ _ _ _ H) as (_ & S & _).
+  destruct (S t c HIn) as (p & c0 & rest & addr & _ & _ & _ & -> & T & V & -> & Pa & B).
+  rewrite Hv. cbn. auto.
+Qed.
+
+Theorem op_fanout tr o a view D r :
+  send_bid_op tr o a view D = XRun r ->
+  construct o a = Ok (xr_sent r) /\
+  Forall2 (fun p ct => fst ct = p_addr p /\ snd ct = if opens_stream_op tr D p then [xr_sent r] else [])
+          (get_peers TProvider view) (xr_contacted r) /\
+  (forall p, In p (get_peers TProvider view) <-> In p view /\ p_type p = TProvider).
+Proof.
+  intros H. apply send_bid_op_run in H. destruct H as (sent & Cs & _ & _ & ->). cbn [xr_sent xr_contacted].
+  split; [exact Cs|]. split; [|intros p; apply get_peers_spec].
+  induction (get_peers TProvider view) as [|p ps IH]; cbn; constructor; auto.
+  cbn. rewrite provider_op_addr, provider_op_written. auto.
+Qed.
+
+Theorem op_refused tr o a view D :
+  send_bid_op tr o a view D = XErr <->
+  (exists e, construct o a = Err e) \/ (exists s, construct o a = Ok s /\ get_peers TProvider view = []).
+Proof.
+  unfold send_bid_op, send_bid_op_gen. destruct (construct o a) as [sent|e|].
+  - destruct (get_peers TProvider view) as [|p ps] eqn:P.
+    + split; auto. intros _. right. exists sent. auto.
+    + destruct (existsb x_crashed _); split; try discriminate;
+        intros [[e He]|[s [_ Hs]]]; discriminate.
+  - split; auto. intros _. left. eauto.
+  - split; [discriminate|]. intros [[e He]|[s [Hs _]]]; discriminate.
+Qed.
+
+Theorem op_no_crash tr o a view D :
+  construct o a <> Panic -> (forall c, verify o c <> Panic) -> send_bid_op tr o a view D <> XPanic.
+Proof.
+  intros Hc Hv. unfold send_bid_op, send_bid_op_gen. destruct (construct o a) as [sent|e|]; try congruence.
+  destruct (get_peers TProvider view) as [|p0 rest0]; [congruence|].
+  destruct (existsb x_crashed _) eqn:C; [|congruence].
+  apply existsb_exists in C. destruct C as (g & Hg & Cg). apply in_map_iff in Hg.
+  destruct Hg as (q & <- & _). exfalso. revert Cg. unfold x_crashed.
+  op_split tr D q; op_rest; try discriminate; intros _; eapply Hv; eauto.
+Qed.
+
+(* --- when the channel is closed ------------------------------------------------------------- *)
+Lemma tmax_list_ats l : tmax_list (map At l) = At (max_list l).
+Proof.
+  induction l as [|x l IH]; [reflexivity|].
+  change (tmax (At x) (tmax_list (map At l)) = At (N.max x (max_list l))). rewrite IH. reflexivity.
+Qed.
+
+Lemma tmax_list_never l : In Never l -> tmax_list l = Never.
+Proof.
+  induction l as [|x l IH]; [intros []|].
+  change (tmax_list (x :: l)) with (tmax x (tmax_list l)).
+  intros [->|H]; [reflexivity|]. rewrite (IH H). destruct x; reflexivity.
+Qed.
+
+(* on every transport: the channel is closed when the last goroutine is finished -- never, if one
+   of them never is *)
+Theorem op_close tr o a view D r :
+  send_bid_op tr o a view D = XRun r ->
+  xr_close r = tmax_list (map (finish_op tr D) (get_peers TProvider view)).
+Proof.
+  intros H. apply send_bid_op_run in H. destruct H as (sent & _ & _ & _ & ->). cbn [xr_close].
+  rewrite map_map. f_equal. apply map_ext. intros p. apply provider_op_finish.
+Qed.
+
+(* termination, FROM the transport's context handling *)
+Theorem op_termination tr o a view D r :
+  ctx_newstream tr = true -> ctx_write tr = true -> ctx_read tr = true ->
+  send_bid_op tr o a view D = XRun r ->
+  exists T, xr_close r = At T /\ T <= D /\
+    (forall p, In p (get_peers TProvider view) -> finish_op tr D p = At (finish_time D p) /\ finish_time D p <= T) /\
+    (exists p, In p (get_peers TProvider view) /\ T = finish_time D p) /\
+    (forall t c, In (t, c) (xr_delivered r) -> t < D /\ t <= T).
+Proof.
+  intros H1 H2 H3 H. pose proof (op_close _ _ _ _ _ _ H) as C.
+  assert (E : map (finish_op tr D) (get_peers TProvider view) = map At (map (finish_time D) (get_peers TProvider view))).
+  { rewrite map_map. apply map_ext. intros p. apply finish_op_ctx; assumption. }
+  rewrite E, tmax_list_ats in C.
+  exists (max_list (map (finish_time D) (get_peers TProvider view))). split; [exact C|].
+  pose proof H as Hr. apply send_bid_op_run in Hr. destruct Hr as (sent & _ & Hne & _ & Er). cbn zeta in Hne.
+  repeat split.
+  - apply max_list_bound. intros x Hx. apply in_map_iff in Hx. destruct Hx as (p & <- & _). apply finish_time_le.
+  - apply finish_op_ctx; assumption.
+  - apply max_list_ge. apply in_map. assumption.
+  - assert (Hm : In (max_list (map (finish_time D) (get_peers TProvider view)))
+                    (map (finish_time D) (get_peers TProvider view))).
+    { apply max_list_in. destruct (get_peers TProvider view); [congruence|discriminate]. }
+    apply in_map_iff in Hm. destruct Hm as (p & Hp & HIn). exists p. auto.
+  - destruct (op_surface _ _ _ _ _ _ H) as (_ & S & _).
+    destruct (S t c H0) as (p & c0 & rest & addr & _ & _ & _ & -> & T & _). auto.
+  - destruct (op_surface _ _ _ _ _ _ H) as (_ & S & _).
+    destruct (S t c H0) as (p & c0 & rest & addr & Hv & Ht & R & -> & T & _).
+    assert (Hp : In p (get_peers TProvider view)) by (apply get_peers_spec; auto).
+    specialize (T H3).
+    assert (F : finish_time D p = p_time p).
+    { apply finish_time_arrives. unfold arrives. rewrite R. apply N.ltb_lt. exact T. }
+    rewrite <- F. apply max_list_ge. apply in_map. exact Hp.
+Qed.
+
+(* ... and it does depend on it.  A ReadMsg that does not watch the context (seeded change C05-f)
+   and a provider that takes the bid and stays silent: the channel is never closed.  A NewStream or
+   WriteMsg that does not watch it and is blocked beyond the deadline: closed late. *)
+Definition silent_view : list peer := [mkPeer [1] TProvider RSilence 0].
+Theorem op_termination_needs_ctx :
+  (exists r, send_bid_op (mkTransport true true false false) w_oracles w_args silent_view 5 = XRun r /\
+             xr_close r = Never) /\
+  (exists r, send_bid_op (mkTransport false true true false) w_oracles w_args
+                         [mkPeer [1] TProvider RNewStreamErr 9] 5 = XRun r /\ xr_close r = At 9) /\
+  (exists r, send_bid_op (mkTransport true false true false) w_oracles w_args
+                         [mkPeer [1] TProvider RWriteErr 9] 5 = XRun r /\ xr_close r = At 9).
+Proof. repeat split; eexists; split; vm_compute; reflexivity. Qed.
+
+(* --- relation to the reading [send_bid] --------------------------------------------------- *)
+Definition lift_run (r : run) : xrun :=
+  mkXRun (r_sent r) (r_contacted r) (r_delivered r) (At (r_close r)).
+Definition lift_result (s : result) : xresult :=
+  match s with SErr => XErr | SPanic => XPanic | SRun r => XRun (lift_run r) end.
+Definition lift_trace (g : gtrace) : otrace := mkO (g_addr g) (g_written g) (g_out g) (At (g_finish g)).
+
+Lemma provider_op_is_run cmp vf sent D p :
+  0 < D -> provider_op cmp ctx_transport vf sent D p = lift_trace (provider_run cmp vf sent D p).
+Proof.
+  intros HD. assert (X0 : (D <=? 0) = false) by (apply N.leb_gt; exact HD).
+  unfold provider_run, finish_time, arrives, lift_trace, ctx_transport.
+  generalize (mkTransport true true true false). intros tr.
+Abort.
+
+Lemma provider_op_is_run cmp vf sent D p :
+  0 < D -> provider_op cmp ctx_transport vf sent D p = lift_trace (provider_run cmp vf sent D p).
+Proof.
+  intros HD. assert (X0 : (D <=? 0) = false) by (apply N.leb_gt; exact HD).
+  unfold provider_op, wait, provider_run, finish_time, arrives, lift_trace, ctx_transport.
+  cbn [ctx_newstream ctx_write ctx_read pick_send andb]. rewrite ?N.ltb_antisym.
+  destruct (p_reply p) eqn:R; rewrite ?X0; destruct (D <=? p_time p) eqn:E1;
+    cbn [andb orb negb]; rewrite ?N.ltb_antisym, ?E1; cbn [andb orb negb]; try reflexivity;
+    destruct (vf c); try reflexivity; destruct (cmp && _); reflexivity.
+Qed.
+
+Lemma lift_lists gs :
+  existsb x_crashed (map lift_trace gs) = existsb crashed gs /\
+  map (fun g => (x_addr g, x_written g)) (map lift_trace gs) = map (fun g => (g_addr g, g_written g)) gs /\
+  flat_map x_delivery (map lift_trace gs) = flat_map delivery gs /\
+  tmax_list (map x_finish (map lift_trace gs)) = At (max_list (map g_finish gs)).
+Proof.
+  split; [|split; [|split]].
+  - induction gs as [|g gs IH]; cbn; [reflexivity|]. rewrite IH. reflexivity.
+  - rewrite map_map. reflexivity.
+  - induction gs as [|g gs IH]; cbn; [reflexivity|]. rewrite IH. f_equal;
+      try (unfold x_delivery, delivery; cbn; destruct (g_out g); reflexivity).
+  - rewrite map_map. rewrite <- (map_map g_finish At). apply tmax_list_ats.
+Qed.
+
+Theorem op_is_send_bid o a view D :
+  0 < D -> send_bid_op ctx_transport o a view D = lift_result (send_bid o a view D).
+Proof.
+  intros HD. unfold send_bid_op, send_bid_op_gen, send_bid, send_bid_gen.
+  destruct (construct o a) as [sent| |]; try reflexivity.
+  destruct (get_peers TProvider view) as [|p0 rest0]; [reflexivity|].
+  assert (E : map (provider_op true ctx_transport (verify o) sent D) (p0 :: rest0) =
+              map lift_trace (map (provider_run true (verify o) sent D) (p0 :: rest0))).
+  { rewrite map_map. apply map_ext. intros q. apply provider_op_is_run. exact HD. }
+  rewrite E.
+  destruct (lift_lists (map (provider_run true (verify o) sent D) (p0 :: rest0))) as (L1 & L2 & L3 & L4).
+  rewrite L1, L2, L3, L4. destruct (existsb crashed _); reflexivity.
+Qed.
+
+(* an already expired context: nothing is written, nothing delivered, closed at once *)
+Theorem op_expired o a view r :
+  send_bid_op ctx_transport o a view 0 = XRun r ->
+  (forall ad ws, In (ad, ws) (xr_contacted r) -> ws = []) /\ xr_delivered r = [] /\ xr_close r = At 0.
+Proof.
+  intros H. pose proof (op_fanout _ _ _ _ _ _ H) as (_ & F & _).
+  pose proof (op_termination ctx_transport _ _ _ _ _ eq_refl eq_refl eq_refl H) as (T & C & L & _ & _ & Dl).
+  repeat split.
+  - intros ad ws HIn. clear -F HIn. induction F as [|p ct ps cts [E1 E2] _ IH]; [destruct HIn|].
+    destruct HIn as [->|HIn]; [|auto]. cbn in E2. unfold opens_stream_op in E2. cbn in E2.
+    destruct (p_reply p); exact E2.
+  - destruct (xr_delivered r) as [|[t c] l]; [reflexivity|]. destruct (Dl t c (or_introl eq_refl)). lia.
+  - rewrite C. f_equal. lia.
+Qed.
+
+Lemma op_close_ctx tr o a view D r :
+  ctx_newstream tr = true -> ctx_write tr = true -> ctx_read tr = true ->
+  send_bid_op tr o a view D = XRun r ->
+  xr_close r = At (max_list (map (finish_time D) (get_peers TProvider view))).
+Proof.
+  intros H1 H2 H3 H. rewrite (op_close _ _ _ _ _ _ H), <- tmax_list_ats, map_map. f_equal.
+  apply map_ext. intros p. apply finish_op_ctx; assumption.
+Qed.
+
+Lemma op_delivered tr o a view D r :
+  send_bid_op tr o a view D = XRun r ->
+  xr_delivered r = flat_map (contribution_op tr o (xr_sent r) D) (get_peers TProvider view).
+Proof.
+  intros H. apply send_bid_op_run in H. destruct H as (sent & _ & _ & _ & ->). cbn [xr_delivered xr_sent].
+  rewrite flat_map_map. reflexivity.
+Qed.
+
+(* ============================================================================================ *)
+(* The executable checker of check/Check_C05.v against the propositions above.                   *)
+(* ============================================================================================ *)
+
+(* the checker is silent on everything the model can do on a transport that watches the context
+   (given a signer that ignores the ProviderAddress field and a topology without duplicate
+   addresses -- it is a map) *)
+Theorem checker_sound tr o a view D r :
+  ctx_newstream tr = true -> ctx_write tr = true -> ctx_read tr = true ->
   (forall c x, verify o (set_prov c x) = verify o c) ->
   NoDup (map p_addr (get_peers TProvider view)) ->
-  send_bid o a view D = SRun r ->
-  check_run (verify o) (r_sent r) (get_peers TProvider view) D
-            (r_contacted r) (r_delivered r) (Some (r_close r)) = [].
+  send_bid_op tr o a view D = XRun r ->
+  exists T, xr_close r = At T /\
+    check_run (verify o) (xr_sent r) (get_peers TProvider view) D
+              (xr_contacted r) (xr_delivered r) (Some T) = [].
 Proof.
-  intros Hv Hn H. unfold check_run.
-  assert (SV := surface_verified _ _ _ _ _ Hv H).
-  destruct (fanout _ _ _ _ _ H) as (_ & F & _).
+  intros H1 H2 H3 Hv Hn H.
+  exists (max_list (map (finish_time D) (get_peers TProvider view))).
+  split; [apply (op_close_ctx tr o a); assumption|]. unfold check_run.
+  assert (SV := op_surface_verified _ _ _ _ _ _ Hv H).
+  destruct (op_fanout _ _ _ _ _ _ H) as (_ & F & _).
   repeat (apply app_nil2; [apply clause_nil|]); [| | | | |apply clause_nil].
   - apply forallb_forall. intros [t c] HIn. destruct (SV t c HIn) as (_ & B & _).
     cbn. apply obid_eqb_eq. exact B.
   - apply forallb_forall. intros [t c] HIn. destruct (SV t c HIn) as (V & _). cbn. rewrite V. reflexivity.
   - apply forallb_forall. intros [t c] HIn. destruct (SV t c HIn) as (V & _). cbn. rewrite V.
     apply bytes_eqb_refl.
-  - apply (sub_multiset_spec _ commitment_eqb_eq). rewrite (run_delivered _ _ _ _ _ H), map_flat_map.
-    unfold candidates. apply sub_flat_map. intros p. unfold contribution, delivery.
-    destruct (g_out (provider_run true (verify o) (r_sent r) D p)) eqn:G; auto.
-    apply provider_run_deliver in G. destruct G as (c0 & rest & ad & R & A & _ & -> & _).
-    right. rewrite R, A. reflexivity.
+  - apply (sub_multiset_spec _ commitment_eqb_eq). rewrite (op_delivered _ _ _ _ _ _ H), map_flat_map.
+    unfold candidates. apply sub_flat_map. intros p.
+    pose proof (contribution_op_length tr o (xr_sent r) D p) as L.
+    destruct (contribution_op tr o (xr_sent r) D p) as [|[t c] l] eqn:E; [left; reflexivity|].
+    destruct l; [|cbn in L; lia]. right.
+    assert (I : In (t, c) (contribution_op tr o (xr_sent r) D p)) by (rewrite E; left; reflexivity).
+    apply contribution_op_in in I. destruct I as (c0 & rest & ad & R & _ & -> & _ & _ & [T|[T _]]); [|congruence].
+    rewrite R. unfold arrives. rewrite R. apply N.ltb_lt in T. rewrite T. reflexivity.
   - apply andb_true_iff. split.
     + apply (perm_eqb_spec _ bytes_eqb_eq).
-      replace (map fst (r_contacted r)) with (map p_addr (get_peers TProvider view)); [reflexivity|].
+      replace (map fst (xr_contacted r)) with (map p_addr (get_peers TProvider view)); [reflexivity|].
       clear -F. induction F as [|p ct ps cts [E _] _ IH]; cbn; congruence.
     + apply forallb_forall. intros ct HIn.
       assert (Hp : exists p, In p (get_peers TProvider view) /\ fst ct = p_addr p /\
-                             snd ct = if opens_stream p then [r_sent r] else []).
+                             snd ct = if opens_stream_op tr D p then [xr_sent r] else []).
       { clear -F HIn. induction F as [|p ct' ps cts [E1 E2] _ IH]; [destruct HIn|].
         destruct HIn as [->|HIn]; [exists p; cbn; auto|].
         destruct (IH HIn) as (q & Hq & Eq). exists q. cbn. auto. }
@@ -533,9 +940,10 @@ Proof.
       destruct (find (fun q => bytes_eqb (p_addr q) (fst ct)) (get_peers TProvider view)) as [q|] eqn:Fd.
       * apply find_some in Fd. destruct Fd as [Hq Eq]. apply bytes_eqb_eq in Eq.
         assert (q = p) by (eapply nodup_map_inj; eauto; congruence). subst q.
-        rewrite E2. unfold opens_stream. destruct (p_reply p); cbn; try rewrite bid_eqb_refl; reflexivity.
+        rewrite E2. unfold opens_stream_op. rewrite H1. cbn [andb].
+        destruct (p_reply p); try reflexivity; destruct (D =? 0); cbn; try rewrite bid_eqb_refl; reflexivity.
       * exfalso. eapply find_none in Fd; [|exact Hp]. cbn in Fd. rewrite E1, bytes_eqb_refl in Fd. discriminate.
-  - rewrite (run_close _ _ _ _ _ H). apply N.eqb_refl.
+  - apply N.eqb_refl.
 Qed.
 
 (* conversely, a silent checker means the observation has the property *)
@@ -545,7 +953,9 @@ Theorem checker_reflects vf sent provs D contacted delivered closed :
   (exists rest, Permutation (map (fun tc => strip (snd tc)) delivered ++ rest) (candidates D provs)) /\
   Permutation (map fst contacted) (map p_addr provs) /\
   (forall ad ws, In (ad, ws) contacted ->
-     exists p, In p provs /\ p_addr p = ad /\ ws = if opens_stream p then [sent] else []) /\
+     exists p, In p provs /\ p_addr p = ad /\ (ws = [] \/ ws = [sent]) /\
+               (ws = [] -> p_reply p = RNewStreamErr \/ D = 0) /\
+               (ws = [sent] -> p_reply p <> RNewStreamErr)) /\
   closed = Some (max_list (map (finish_time D) provs)).
 Proof.
   unfold check_run. intros H.
@@ -559,12 +969,17 @@ Proof.
   - rewrite forallb_forall in Hbid. specialize (Hbid _ H0). cbn in Hbid. apply obid_eqb_eq. exact Hbid.
   - apply (sub_multiset_spec _ commitment_eqb_eq). exact Hsub.
   - apply (perm_eqb_spec _ bytes_eqb_eq). exact Hperm.
-  - intros ad ws HIn. rewrite forallb_forall in Hoff. specialize (Hoff _ HIn). unfold offered_ok in Hoff. cbn in Hoff.
+  - intros ad ws HIn. rewrite forallb_forall in Hoff. specialize (Hoff _ HIn). unfold offered_ok in Hoff.
+    cbn [fst snd] in Hoff.
     destruct (find (fun p => bytes_eqb (p_addr p) ad) provs) as [p|] eqn:Fd; [|discriminate].
     apply find_some in Fd. destruct Fd as [Hp E]. apply bytes_eqb_eq in E.
-    exists p. split; [exact Hp|]. split; [exact E|]. unfold opens_stream.
-    destruct (p_reply p); try (apply (list_eqb_eq _ bid_eqb_eq) in Hoff; exact Hoff).
-    destruct ws; [reflexivity|discriminate].
+    exists p. split; [exact Hp|]. split; [exact E|].
+    destruct ws as [|w ws]; cbn [fst snd] in Hoff.
+    + split; [left; reflexivity|]. split; [|discriminate]. intros _.
+      destruct (p_reply p); auto; right; apply N.eqb_eq; exact Hoff.
+    + apply andb_true_iff in Hoff. destruct Hoff as [Hl Hr].
+      apply (list_eqb_eq _ bid_eqb_eq) in Hl. split; [right; exact Hl|]. split; [discriminate|].
+      intros _ R. rewrite R in Hr. discriminate.
   - destruct closed as [t|]; [|discriminate]. apply N.eqb_eq in H. congruence.
 Qed.
 
@@ -578,3 +993,24 @@ Example checker_flags_v0 :
   check_run (verify w_oracles) w_sent (get_peers TProvider w_view) 2
             [([1], [w_sent])] [(1, set_prov w_frame [9; 9])] (Some 1) = ["surfaced:other-bid"%string].
 Proof. vm_compute. reflexivity. Qed.
+
+(* the operational model on the example of [send_bid_example]; and with an expired context *)
+Example send_bid_op_example : send_bid_op ctx_transport w_oracles w_args e_view 5 = XRun (lift_run e_run).
+Proof. vm_compute. reflexivity. Qed.
+Example send_bid_op_expired_example :
+  send_bid_op ctx_transport w_oracles w_args e_view 0 =
+  XRun (mkXRun w_sent [([1], []); ([2], []); ([3], [])] [] (At 0)).
+Proof. vm_compute. reflexivity. Qed.
+
+(* The text asks for "at most one commitment per contacted provider", and that is what holds: one
+   per stream.  SendBid does not require the recovered signer to be the peer it contacted, so two
+   providers relaying the same commitment yield two deliveries reporting the same address. *)
+Theorem same_address_twice :
+  exists view r t1 t2 c,
+    send_bid_op ctx_transport w_oracles w_args view 5 = XRun r /\
+    xr_delivered r = [(t1, c); (t2, c)] /\ NoDup (map p_addr view).
+Proof.
+  exists [mkPeer [1] TProvider (RFrames e_frame []) 1; mkPeer [2] TProvider (RFrames e_frame []) 2].
+  eexists. exists 1, 2, (set_prov e_frame [9; 9]). split; [vm_compute; reflexivity|]. split; [reflexivity|].
+  repeat constructor; cbn; intuition discriminate.
+Qed.
